@@ -2,7 +2,7 @@
    inverses).  Statements only; proofs are in Proofs/TxProofs.v.
    Model: Model/Tx.v, Model/VarInt.v, Model/Script.v (transcriptions of the Rust code, tied by the correspondence run).
    Spec:  Spec/TxWire.v (wire encoder over raw fields, independent decoder, `canonical`), Spec/ScriptTok.v (C02). *)
-From BSV Require Import Base.Hex Model.Opcodes Model.Script Model.VarInt Model.Tx Spec.ScriptTok Spec.TxWire
+From BSV Require Import Base.Hex Model.Opcodes Model.Script Model.VarInt Model.Tx Model.TxExt Spec.ScriptTok Spec.TxWire
   Proofs.ScriptProofs Proofs.TxProofs Prim.Sha256.
 
 (* ---- 1. compact sizes ------------------------------------------------------------------------------- *)
@@ -130,6 +130,23 @@ Theorem C01_construction_api_same_bytes :
   forall t, tx_bytes (build (version t) (locktime t) (map api_of_in (inputs t)) (map api_of_out (outputs t))) = tx_bytes t.
 Proof. exact construction_api_same_bytes. Qed.
 Print Assumptions C01_construction_api_same_bytes.
+
+(* the extended-format annotations a signer attaches to an input (set_locking_script / set_satoshis, before add_input
+   or through get_input/set_input afterwards) do not enter the wire serialisation: the bytes are the encoding of the
+   plain field values *)
+Theorem C01_construction_api_ext :
+  forall ver lt ins outs,
+    tx_bytes (build_ext ver lt ins outs) =
+    encode_tx_spec (mk_fields ver (map (fun a => api_in_fields (fst (fst a))) ins) (map api_out_fields outs) lt).
+Proof. exact construction_api_ext. Qed.
+Print Assumptions C01_construction_api_ext.
+Theorem C01_extended_fields_not_on_wire :
+  (forall i lk sa, txin_bytes (txin_annotate i lk sa) = txin_bytes i)
+  /\ (forall t k i lk sa t', tx_get_input t k = Some i -> tx_set_input t k (txin_annotate i lk sa) = Ok t' -> tx_bytes t' = tx_bytes t)
+  /\ (forall ver lt ins outs,
+        tx_bytes (build_ext ver lt ins outs) = tx_bytes (build ver lt (map (fun a => fst (fst a)) ins) outs)).
+Proof. exact extended_fields_not_on_wire. Qed.
+Print Assumptions C01_extended_fields_not_on_wire.
 
 (* ---- non-vacuity ------------------------------------------------------------------------------------- *)
 Definition hexb (s : string) : bytes := match bytes_of_hex s with Some b => b | None => [] end.
